@@ -370,9 +370,22 @@ def gen_fail(rng):
             pfl = rng.choice(FLS)
             parent = b.payload(pfl, [["adopt", 0, pid]] + rnd_bystander_script(rng, pfl), rnd_cleanup(rng, pfl))
             (b.main if rng.random() < 0.5 else h).append(["adopt", 0, parent])
+    stalls = False
+    if rng.random() < 0.3 and not burst:
+        # a bystander that keeps executing payloads of another flavour: the failure is likely to arrive while such a
+        # synchronous cross-flavour call is in flight (the closing runners must not wait for each other)
+        cfl = rng.choice(FLS)
+        tfl = rng.choice([f for f in FLS if f != cfl])
+        script = []
+        for _ in range(12):
+            body = [["step"]] if (tfl == "threading" and cfl != "threading") else [["step"], ["sleep", rng.choice([0.02, 0.05])]]
+            script.append(["execute", 0, b.payload(tfl, body)])
+        caller = b.payload(cfl, [["wait", "fail"]] + script + rnd_bystander_script(rng, cfl), rnd_cleanup(rng, cfl))
+        b.main.append(["adopt", 0, caller])
+        stalls = cfl != "threading"
     b.main.append(["accept", 0])
     if not immediate and not early:
-        h += [["sleep", SETTLE], ["mark", "settled"], ["set", "fail"]]
+        h += [["sleep", SETTLE]] + ([] if stalls else [["mark", "settled"]]) + [["set", "fail"]]
     elif not immediate:
         h += [["sleep", 0.05], ["set", "fail"]]
     b.helpers.append(h)
@@ -427,9 +440,17 @@ def gen_stop(rng):
         pid = b.payload(fl, [["wait", "go"], rnd_failure(rng, allow_base=False)])
         b.main.append(["adopt", 0, pid])
         h.append(["set", "go"])
+    second = None
+    if trigger in ("fail", "shutdown", "thread_shutdown") and rng.random() < 0.3:
+        # a second trigger while the first one is still being worked off: an interrupt arrives during a slow
+        # shielded cleanup (the run still ends only when that cleanup is through)
+        slow = b.payload("trio", [["beat", 3000, 0.01]], {"sync": 1, "shield": rng.choice([0.4, 0.8]), "shield_steps": 5})
+        b.main.insert(0, ["adopt", 0, slow])
+        second = rng.choice([0.05, 0.15, 0.3])
+        h += [["sleep", second], ["sigint_if_running", 0]]
     b.main.append(["accept", 0])
     b.helpers.append(h)
-    b.meta = {"family": "stop", "trigger": trigger, "when": when}
+    b.meta = {"family": "stop", "trigger": trigger, "when": when, "second_sigint": second}
     if rng.random() < 0.3 and when != "late":
         return b.scenario(linger=0.5, timeout=25, perturb=rnd_perturbation(rng))
     return b.scenario(linger=0.5)
